@@ -536,6 +536,82 @@ def run_check(tier, seed):
                 if bad_cells or raw_bad:
                     prop_fail.append(('C18:blocks:wrong-place', 'block (rows 1-2, cols from %d) of a variable with inner dimension %d: elements read back %s ; raw bytes at the specified offsets %s'
                                       % (c0, inner, bad_cells[:3], raw_bad[:3]), desc))
+        # ---------------- stream blocksN (seed C01-6): the same for variables of 3 and 4 dimensions whose outer dimensions have
+        # DIFFERENT lengths: the big-integer fallback of type_create_subarray64 accumulates the byte stride of the slower
+        # dimensions as a running product of the dimension lengths; a wrong index there is invisible on 2-D variables.
+        import itertools
+        for outer, inner, xt, mt, xsz in (([3, 2], 2**31 + 40, 'byte', 'schar', 1), ([2, 3, 2], 2**31 + 8, 'short', 'short', 2),
+                                          ([4, 3], 2**32 // 4 + 16, 'int', 'int', 4)):
+            for (c0, c1, s1) in ((inner - 9, 4, 1), (7, 2, 3)):
+                name = 'c18blkN_%d.nc' % n_blk
+                dims = outer + [inner]
+                nd = len(dims)
+                lines_b = ['1 * create %s 5 clobber -' % name]
+                for i, d in enumerate(outer):
+                    lines_b.append('2 * def_dim d%d %d' % (i, d))
+                lines_b += ['3 * def_dim big %d' % inner, '4 * def_var pad int 1 d0',
+                            '5 * def_var v %s %d %s big' % (xt, nd, ' '.join('d%d' % i for i in range(len(outer)))), '6 * enddef',
+                            '7 * inq_varoffset v']
+                st_o = [d - 2 for d in outer]
+                start = st_o + [c0]
+                count = [2] * len(outer) + [c1]
+                cells = [tuple(st_o[i] + ix[i] for i in range(len(outer))) + (c0 + ix[-1] * s1,)
+                         for ix in itertools.product(*[range(c) for c in count])]
+                vals = list(range(1, len(cells) + 1))
+                cs = lambda l: ','.join(map(str, l))
+                if s1 == 1:
+                    lines_b.append('8 * put vara c v %s c %s %s - - : %s' % (mt, cs(start), cs(count), ' '.join(map(str, vals))))
+                else:
+                    lines_b.append('8 * put vars c v %s c %s %s %s - : %s' % (mt, cs(start), cs(count), cs([1] * len(outer) + [s1]), ' '.join(map(str, vals))))
+                lines_b.append('9 * sync')
+                st = 10
+                for cidx in cells:
+                    lines_b.append('%d * get var1 c v %s c %s - - -' % (st, mt, cs(cidx))); st += 1
+                if s1 == 1:
+                    lines_b.append('%d * get vara c v %s c %s %s - -' % (st, mt, cs(start), cs(count))); st += 1
+                lines_b.append('%d * close' % st); st += 1
+                script = os.path.join(wd, 'blkN_%d.txt' % os.getpid())
+                open(script, 'w').write('\n'.join(lines_b) + '\n')
+                rc, impl, err = apicmp.run_impl(bexe, script, 1, wd)
+                n_blk += 1
+                desc = dict(stream='blocksN', script='\n'.join(lines_b), rc=rc, out=impl[:40])
+                begin = None
+                got = {}
+                vara_line = None
+                for l in impl:
+                    tk = l.split()
+                    if tk[0] == '7':
+                        begin = int(tk[4])
+                    if tk[2] == 'get' and int(tk[0]) >= 10 and int(tk[0]) < 10 + len(cells):
+                        got[int(tk[0]) - 10] = (tk[3], tk[-1])
+                    if s1 == 1 and tk[2] == 'get' and int(tk[0]) == 10 + len(cells):
+                        vara_line = tk
+                if rc != 0 or begin is None or len(got) != len(cells):
+                    prop_fail.append(('C18:blocksN:failed', 'multi-slab request on a %d-dimensional variable with inner dimension %d failed' % (nd, inner), desc)); continue
+                bad_cells = [(cells[i], got[i], vals[i]) for i in range(len(cells)) if got[i] != ('0', str(vals[i]))]
+                if vara_line is not None and (vara_line[3] != '0' or vara_line[-len(vals):] != [str(x) for x in vals]):
+                    bad_cells.append(('get_vara of the whole block', tuple(vara_line[3:][:8]), vals[:6]))
+                fpath = os.path.join(wd, name)
+                raw_bad = []
+                try:
+                    with open(fpath, 'rb') as fh:
+                        for i, cidx in enumerate(cells):
+                            lin = 0
+                            for d, ix in zip(dims, cidx):
+                                lin = lin * d + ix
+                            off = begin + lin * xsz
+                            fh.seek(off)
+                            bts = fh.read(xsz)
+                            if int.from_bytes(bts, 'big', signed=True) != vals[i]:
+                                raw_bad.append((off, bts.hex(), vals[i]))
+                    os.unlink(fpath)
+                except OSError as ex:
+                    raw_bad.append(('io', str(ex), 0))
+                bump('blocksN:%dD:%s' % (nd, 'strided' if s1 > 1 else 'contig-rows'))
+                distinct.add('blocksN %s %d %s %d %d %d' % (outer, inner, xt, c0, c1, s1))
+                if bad_cells or raw_bad:
+                    prop_fail.append(('C18:blocksN:wrong-place', 'block %s+%s of a variable of shape %s: elements read back %s ; raw bytes at the specified offsets %s'
+                                      % (start, count, dims, bad_cells[:3], raw_bad[:3]), desc))
         # ---------------- stream nbwide: several INTERLEAVING nonblocking requests (one strided column request each) completed by one
         # wait, on a variable whose rows are 2 GiB / 4 GiB apart: the flattened offset-length pairs are sorted and merged in
         # ncmpio_wait.c with 64-bit offsets; a comparison that truncates to int mis-orders pairs >= 2^31 bytes apart and the
